@@ -26,6 +26,16 @@ namespace dispenso {
  * (good for wide graph parallelism).
  **/
 constexpr float kDefaultPoolRecursiveLoadFactor = 1.5f;
+namespace detail {
+// A functor that is dropped without being invoked.  Ordinary functors release what they own in
+// their destructor; OnceFunction has no destructor and must be told to clean up.
+template <typename F>
+inline void discardUnrun(F&) {}
+inline void discardUnrun(OnceFunction& f) {
+  f.cleanupNotRun();
+}
+} // namespace detail
+
 class TaskSetBase;
 
 namespace detail {
@@ -135,6 +145,8 @@ class TaskSetBase {
 #else
         f();
 #endif // __cpp_exceptions
+      } else {
+        detail::discardUnrun(f);
       }
       if (pushed) {
         detail::popThreadTaskSet();
@@ -164,6 +176,8 @@ class TaskSetBase {
 #else
         f();
 #endif // __cpp_exceptions
+      } else {
+        detail::discardUnrun(f);
       }
       if (pushed) {
         detail::popThreadTaskSet();
